@@ -462,7 +462,7 @@ def oracle(case, obs):
             return v
         h = dict((k, v) for k, v in headers)
         ct = [x.strip().lower() for x in h.get("content-type", "").split(";")]
-        if ct[0] != "text/event-stream" or "charset=utf-8" not in ct[1:]:
+        if ct[0] != "text/event-stream" or ct[1:] != ["charset=utf-8"]:      # exactly one charset parameter
             return ("content-type", "Content-Type is %r, an EventSource requires text/event-stream (utf-8)" % h.get("content-type"))
         if h.get("cache-control") != "no-cache":
             return ("cache-control", "Cache-Control is %r" % h.get("cache-control"))
